@@ -129,6 +129,25 @@ def witness_file_boundary():
     return plan
 
 
+def witness_glob_syntax(clean_ref=True):
+    """C01/C02: every glob syntax the loader documents selects real files whose CONTENT is part of the key: for each pattern
+    (braces only, `?`, a class, a star, braces with a star) build, edit one matched file, build (must re-execute: the incremental
+    build equals the from-scratch build), build again (a no-op)."""
+    def plan(h, r):
+        pats = ["{f0,f1,f2}.txt", "f?.txt", "[fn]0.txt", "*.txt", "{f0,n1}.*"]
+        mk = lambda v: {"nodes": [
+            {"k": "t", "pkg": "p", "name": "g%d" % i, "salt": "v0", "ins": [], "glob": "src/" + pat, "excl": [], "outs": [("file", "g%d.out" % i)],
+             "deps": [], "fp": {}, "nocache": False, "multi": False, "beh": "n", "check": False, "comment": ""} for i, pat in enumerate(pats)],
+            "files": {"p/src/f0.txt": "f0-" + v, "p/src/f1.txt": "f1", "p/src/f2.txt": "f2", "p/src/n1.txt": "n1"}}
+        h.set_sources(mk("a")); h.build(ALL_CACHE)
+        h.set_sources(mk("b"), "content of p/src/f0.txt (matched by every pattern) edited")
+        h.build(ALL_CACHE)
+        notes = [("clean-ref", len(h.builds) - 1, h.clean_reference(ALL_CACHE))] if clean_ref else []
+        h.build(ALL_CACHE)
+        return notes + [("noop", len(h.builds) - 1)]
+    return plan
+
+
 # ------------------------------------------------------------------ running a batch
 def run_batch(plans, seed_base, workers=32):
     """plans: list of (stream name, plan function).  Returns list of (stream, History, notes, model builds)."""
